@@ -18,7 +18,7 @@ func main() {
 	prop := flag.String("prop", "", "property id")
 	tier := flag.String("tier", "", "quick|thorough")
 	flag.Parse()
-	checks := map[string]func(){"C09": c09, "C15": c15, "C08": c08, "C10": c10}
+	checks := map[string]func(){"C09": c09, "C15": c15, "C08": c08, "C10": c10, "C16": c16}
 	levels := map[string]string{"C08": "model_checking", "C09": "fault_enumeration", "C10": "fault_enumeration", "C15": "model_checking", "C16": "fault_enumeration"}
 	fn, ok := checks[*prop]
 	if !ok {
